@@ -392,7 +392,9 @@ func runC38(c *mon.Ctx) {
 		"that kind are set, DC in 0..2^31-1, LocalID in int32; (3) hostile strings through DecodeFileID (mutated valid ids, crafted pre-RLE buffers with every version / sub-version / " +
 		"photo-size kind incl. out-of-range, huge length prefixes, dangling RLE zero, base64 garbage, non-base64 text): any panic is a violation, and an id that decodes from a " +
 		"sub-version >= 32 or web-location input is itself re-encoded and must round-trip (signature prefix reencode|); (4) a child-process batch of large RLE expansion inputs " +
-		"(fatal errors). distinct non-trivial = distinct (arm, type, pss kind, web, reference shape / run length / hostile mutation, outcome)")
+		"(fatal errors); (5) history arm (signature prefix history|): the last 8 decoded values and their strings are kept alive and re-inspected after every later " +
+		"Encode/Decode call (incl. decodes of garbage and of foreign ids), arguments must not be modified, and 6 goroutines round-trip different ids concurrently, each re-inspecting " +
+		"its last 4 results — the functions are pure, a result must not depend on other calls. distinct non-trivial = distinct (arm, type, pss kind, web, reference shape / run length / hostile mutation, outcome)")
 	c.Assume("equality is reflect.DeepEqual after mapping an empty file reference to nil; FileID values whose non-wire fields are set (e.g. ID together with URL, " +
 		"PhotoSize string, negative DC) are outside the domain")
 	c.Assume("harness transcription of the pre-RLE layout (c38Serialize + reference RLE) is used to classify witnesses and to craft hostile inputs; the only verdict that " +
@@ -702,6 +704,9 @@ func runC38(c *mon.Ctx) {
 	if decodedOK == 0 {
 		c.Inconclusive("no hostile input decoded successfully: generator broken")
 	}
+
+	// ---- (3b) history arm: earlier results must survive later calls ----------
+	c38HistoryArm(c)
 
 	// ---- (4) large RLE expansions in a child process ------------------------
 	var big [][]byte
